@@ -1135,3 +1135,90 @@ def rule_cache_writers(ctx, prop):
                                   f.loc(t["sp"]), cfg)
         rep.floor("writes to config_cache", n, 1, cfg)
     return rep
+
+
+CONFIG_LAYER = re.compile(r"(^|::)config::(read_config_file|read_and_apply_overrides|ConfigResolver::<'_>::(lookup_config_file_in_directory|"
+                          r"find_config_file|search_config_locations|load_configuration|load_configuration_for_stdin))$|"
+                          r"editorconfig::parse$")
+
+
+def _whole_uses(f, local, seen=None):
+    """consumers of the *whole* value of a local (no field / variant projection), through copies and references:
+    ('ret',) | ('call', block, term, argument index)"""
+    seen = set() if seen is None else seen
+    if local in seen:
+        return []
+    seen.add(local)
+    out = []
+    if local == 0:
+        out.append(("ret",))
+    for bi, blk in enumerate(f.blocks):
+        for s_ in blk["st"]:
+            if s_["k"] != "assign" or s_["dst"].get("p"):
+                continue
+            rv = s_["rv"]
+            src = None
+            if rv["k"] in ("use", "cast") and not is_const(rv["o"]):
+                src = op_place(rv["o"])
+            elif rv["k"] == "ref":
+                src = rv["p"]
+            if src is not None and src["l"] == local and not [e for e in src.get("p", []) if e != "*"]:
+                out += _whole_uses(f, s_["dst"]["l"], seen)
+        t = blk["term"]
+        if t["k"] == "call":
+            for ai, a in enumerate(t["args"]):
+                if not is_const(a):
+                    pl = op_place(a)
+                    if pl["l"] == local and not [e for e in pl.get("p", []) if e != "*"]:
+                        out.append(("call", bi, t, ai))
+    return out
+
+
+def rule_config_errors(ctx, prop):
+    """a configuration file that cannot be read or decoded is an error wherever it is found - never skipped"""
+    rep = Report(prop, "R-CFGERR", "every Result of the configuration-reading layer is propagated (`?`, returned, mapped into the "
+                                   "caller's Result): no call site matches on Ok only and carries on when it is Err")
+    for cfg, prog in ctx.programs.items():
+        prog = _view(prog)
+        n = 0
+        for f in prog.fns("stylua"):
+            for b, t in f.calls():
+                c = callee(t)
+                if not CONFIG_LAYER.search(c) or "p" in t["dst"]:
+                    continue
+                if "Result" not in f.local_ty(t["dst"]["l"]):
+                    continue
+                n += 1
+                uses = _whole_uses(f, t["dst"]["l"])
+                propagated = False
+                for u in uses:
+                    if u[0] == "ret":
+                        propagated = True
+                    elif u[0] == "call" and re.search(r"Try>::branch$|Result::<.*>::(map|map_err|and_then|context|with_context|or_else)$|"
+                                                      r"Result::<T, E>::(map|map_err|and_then|or_else)$|::context$|::with_context$|"
+                                                      r"Option::<.*>::transpose$", callee(u[2])):
+                        propagated = True
+                dropped = None
+                if not propagated:
+                    # a match on the discriminant: is the Err edge led to an Err return?
+                    for sb in range(len(f.blocks)):
+                        si = switch_info(f, sb)
+                        if si and si["place"].get("l") == t["dst"]["l"] and si["enum"].endswith("result::Result"):
+                            err_t = si["targets"].get("Err", si["otherwise"])
+                            reach = f.reach_from(err_t) if err_t is not None else set()
+                            builds_err = any(s_["k"] == "assign" and s_["rv"]["k"] == "agg" and s_["rv"].get("variant") == "Err"
+                                             for x in reach for s_ in f.blocks[x]["st"])
+                            if "Err" in si["targets"] and builds_err:
+                                propagated = True
+                            else:
+                                dropped = "matched on Ok only"
+                    if not propagated and dropped is None:
+                        dropped = "result not propagated"
+                rep.inst(f"{f.key} {c.split('::')[-1]} error propagated", {"at": f.loc(t["sp"])}, cfg, ok=propagated)
+                if not propagated:
+                    rep.violation(f"{f.key} config-error-dropped {c.split('::')[-1]}",
+                                  f"{f.path} calls {c} and carries on when it fails ({dropped}): a configuration file that cannot be "
+                                  f"read or decoded (unknown key, wrong value) is silently skipped there, the run falls back to "
+                                  f"another configuration, rewrites the files and exits 0 instead of exiting 2", f.loc(t["sp"]), cfg)
+        rep.floor("call sites of the configuration-reading layer", n, 8, cfg)
+    return rep
